@@ -203,3 +203,13 @@ package ast
 //@   trusted
 //@   modifies om_has, om_val, om_len, om_key
 //@   nilable vars other include
+
+// ---- C15 / C16: in a task name only '*' is special; every other character is matched literally ------------
+// The pattern handed to the regexp compiler is built from the name's '*'-separated segments, each of them
+// quoted (regexp.QuoteMeta), joined by a capture group: that is always a valid expression, so MustCompile
+// cannot panic, and '.', '(' ... in a name mean themselves.
+//@ func (*Task).WildcardMatch
+//@   sweep                                                                                                             [C16]
+//@   site strings.Split#1 requires arg0 == t.Task && arg1 == "*"                                                       [C15,C16]
+//@   site regexp.QuoteMeta#1 requires arg0 == names[$i]              -- every literal segment is quoted                [C15,C16]
+//@   site strings.Join#1 requires arg0 == names && arg1 == "(.*)"                                                      [C15,C16]
